@@ -7,7 +7,8 @@
    The remaining step of "the triangles tile the region" — every point of the region is covered — is the covering-degree
    argument; it is stated at the end (covering_statement) and NOT proved: see manifold_area_tiling_partial. *)
 From Coq Require Import ZArith List Bool Lia Permutation.
-From GeosV Require Import Lib.KernelDefs C16.Defs.
+From GeosV.Lib Require Import KernelDefs.
+From GeosV.C16 Require Import Defs.
 Import ListNotations.
 Local Open Scope Z_scope.
 
